@@ -1,3 +1,4 @@
+import AquaVerif.Proofs.Run
 import AquaVerif.Proofs.CanopyCover
 import AquaVerif.Proofs.RootDevelopment
 import AquaVerif.Proofs.HarvestIndex
@@ -198,5 +199,23 @@ theorem cumulative_degree_days_never_decrease {m : Nat} {tupp tbase tmax tmin g 
     (h : tbase ≤ tupp) (hg : growingDegreeDay m tupp tbase tmax tmin = some g) : cum ≤ cum + g := by
   have := (gdd_range h hg).1
   linarith
+
+
+/-! ### every simulated day of every run -/
+
+/-- **Run level.** The crop envelope `CropInv` (0 ≤ CC ≤ CC_ns ≤ CCx, adjusted covers ≤ 1, rooting
+depth within [Zmin, Zmax] and below the layer-limited potential, HI ≤ HI0, HIadj ≤ (1+dHI0/100)·HI,
+0 ≤ B ≤ B_ns, …) holds on every reachable state and on every simulated day of every run, through
+the season-start resets — by induction over the run; the per-day hypotheses that could not be
+discharged from the previous day (`DayCropOK`: rewatering cap, yield-formation switch, Tr ≤
+TrPot_ns, ET0 > 0) are explicit. -/
+theorem run_crop_envelope {F : Fn α} {T : TrigFn α} {cfg : RunCfg α} {s : RunState α}
+    (hr : RunReach F T cfg s) (hs0 : -1 ≤ cfg.clock.season0)
+    (h0 : CropInv F (paramsOf cfg cfg.clock.season0 false) cfg.init)
+    (hreset : ∀ k, ResetCropOK (cfg.seasonCrop k))
+    (hOK : ∀ d ∈ s.daysRev, DayCropOK F T d) :
+    -1 ≤ s.season ∧ CropInv F (paramsOf cfg s.season false) s.day ∧
+      ∀ d ∈ s.daysRev, CropInv F d.P d.st ∧ CropInv F d.P d.r.state :=
+  run_cropInv hr hs0 h0 hreset hOK
 
 end Aqua.C05
